@@ -616,6 +616,16 @@ def _per_element_dispatch(repo: Repo, d: Def, seq: str, dct: str, per_key: str, 
         el = g.target.id
         calls = [c for c in ast.walk(comp.elt) if isinstance(c, ast.Call) and c.args and isinstance(c.args[0], ast.Name) and c.args[0].id == el]
         ok = any(per_key in repo.callee_quals(c, d) and len(c.args) >= 2 and unparse(c.args[1]) == dct for c in calls) or any(isinstance(c.func, ast.Subscript) and unparse(c.func.value) == dct and unparse(c.func.slice) == f"{el}.name" for c in calls)
+        if not ok:
+            # the per-element work may sit in a local function: [h(a) for a in seq] with
+            # def h(a): … per_key(a, dct) …   (dct is the enclosing function's parameter)
+            for c in calls:
+                if isinstance(c.func, ast.Name) and c.func.id in d.children and d.children[c.func.id].is_func and len(c.args) == 1:
+                    h = d.children[c.func.id]
+                    hp = h.params[0] if h.params else None
+                    inner = [x for x in h.own_nodes() if isinstance(x, ast.Call) and x.args and isinstance(x.args[0], ast.Name) and x.args[0].id == hp]
+                    if any(per_key in repo.callee_quals(x, h) and len(x.args) >= 2 and unparse(x.args[1]) == dct for x in inner):
+                        ok = True
         yield ok, comp, "the element is not looked up under its own name"
     # loop form (generator helper)
     for ln in cfg.stmts((ast.For, ast.AsyncFor)):
@@ -702,6 +712,22 @@ def nest_dispatch(ctx: Ctx) -> None:
     ):
         d = repo.get(q)
         comps = [n for n in d.own_nodes() if isinstance(n, (ast.ListComp, ast.GeneratorExp)) and isinstance(n.elt, ast.Call) and disp in repo.callee_quals(n.elt, d)]
+        holder = d
+        if not comps and d.parent is not None:
+            # a sibling local function that maps the dispatcher over its parameter, called
+            # here with the arguments
+            for sib in d.parent.children.values():
+                if sib is d or not sib.is_func:
+                    continue
+                sc = [n for n in sib.own_nodes() if isinstance(n, (ast.ListComp, ast.GeneratorExp)) and isinstance(n.elt, ast.Call) and disp in repo.callee_quals(n.elt, sib)]
+                called = [c for c in d.own_nodes() if isinstance(c, ast.Call) and isinstance(c.func, ast.Name) and c.func.id == sib.name and len(c.args) == 1]
+                if len(sc) == 1 and called and sib.params and isinstance(sc[0].generators[0].iter, ast.Name) and sc[0].generators[0].iter.id == sib.params[0]:
+                    # judge the comprehension in the sibling, and the argument handed to it here
+                    comps, holder = sc, sib
+                    arg_roots = flow_of(repo, d).roots(called[0].args[0], cfg_of(d).node_of(called[0])) if cfg_of(d).has(called[0]) else set()
+                    if not (arg_roots and all(r.startswith("param:") or ".args" in r for r in arg_roots)):
+                        comps = []
+        d_orig, d = d, holder
         ok = len(comps) == 1
         if ok:
             g = comps[0].generators[0]
@@ -710,13 +736,14 @@ def nest_dispatch(ctx: Ctx) -> None:
                 fl = flow_of(repo, d)
                 rs = fl.roots(g.iter, cfg_of(d).node_of(comps[0]))
                 ok = all(r.startswith("param:") or ".args" in r for r in rs)
+        d = d_orig
         ctx.ob(d, comps[0] if comps else d.node, ok, f"{d.name}: the dispatcher is applied to every argument, in order, without filter", sel=f"dispatch:all-args:{d.name}")
         # ... with the predecessor dictionary the factory was given — not a derived one
         # (a memoising or filtering wrapper makes two occurrences of one key share one
         # FunctionArgs, i.e. one single-use block iterator)
         if comps and len(comps[0].elt.args) >= 2 and d.parent is not None:
             a1 = comps[0].elt.args[1]
-            okd = isinstance(a1, ast.Name) and a1.id in d.parent.params and not flow_of(repo, d).rdefs(a1.id, cfg_of(d).node_of(comps[0]))
+            okd = isinstance(a1, ast.Name) and a1.id in d.parent.params and not flow_of(repo, holder).rdefs(a1.id, cfg_of(holder).node_of(comps[0]))
             ctx.ob(
                 d,
                 comps[0],
@@ -729,9 +756,22 @@ def nest_dispatch(ctx: Ctx) -> None:
     k1 = repo.get(f"{A.PBW}._apply_blockwise_key_func_to_chunk_key")
     c1 = cfg_of(k1)
     ok1 = False
+    def _absent(t, pol, K, key_attr, kfl, at):
+        """the fact says: K's dictionary has no entry under <arg>.<key_attr>"""
+        if isinstance(t, ast.Compare) and isinstance(t.ops[0], (ast.NotIn, ast.In)) and (isinstance(t.ops[0], ast.NotIn) == pol) and unparse(t.left) == f"{K.params[0]}.{key_attr}" and unparse(t.comparators[0]) == K.params[1]:
+            return True
+        # v = D.get(arg.<key_attr>) ; if v is None
+        if isinstance(t, ast.Compare) and isinstance(t.ops[0], (ast.Is, ast.IsNot)) and (isinstance(t.ops[0], ast.Is) == pol) and isinstance(t.comparators[0], ast.Constant) and t.comparators[0].value is None and isinstance(t.left, ast.Name):
+            for s_ in kfl.rdefs(t.left.id, at):
+                v = s_.value
+                if isinstance(v, ast.Call) and isinstance(v.func, ast.Attribute) and v.func.attr == "get" and unparse(v.func.value) == K.params[1] and v.args and unparse(v.args[0]) == f"{K.params[0]}.{key_attr}" and (len(v.args) == 1 or (isinstance(v.args[1], ast.Constant) and v.args[1].value is None)):
+                    return True
+        return False
+
+    k1fl = flow_of(repo, k1)
     for r in c1.returns():
         for t, pol in facts_at(c1, r.id):
-            if isinstance(t, ast.Compare) and isinstance(t.ops[0], (ast.NotIn, ast.In)) and (isinstance(t.ops[0], ast.NotIn) == pol) and unparse(t.left) == f"{k1.params[0]}.name" and unparse(t.comparators[0]) == k1.params[1]:
+            if _absent(t, pol, k1, "name", k1fl, r.id):
                 v = r.stmt.value
                 ok1 = isinstance(v, ast.Call) and FA in repo.callee_quals(v, k1) and len(v.args) == 1 and unparse(v.args[0]) == k1.params[0] and unparse(kwarg(v, "output_name")) == f"{k1.params[0]}.name"
     ctx.ob(k1, None, ok1, "key dispatcher: a key whose array has no predecessor key function passes through unchanged", sel="dispatch:key-passthrough")
@@ -742,19 +782,30 @@ def nest_dispatch(ctx: Ctx) -> None:
         if isinstance(v, ast.Call) and FA in repo.callee_quals(v, k1):
             continue
         fresh = isinstance(v, ast.Call) and isinstance(v.func, ast.Subscript) and unparse(v.func.value) == k1.params[1]
+        if not fresh and isinstance(v, ast.Call) and isinstance(v.func, ast.Name):
+            # kf = D.get(arg.name) … return kf(arg): still a call made now
+            ds_ = k1fl.rdefs(v.func.id, r.id)
+            fresh = bool(ds_) and all(isinstance(d_.value, ast.Call) and isinstance(d_.value.func, ast.Attribute) and d_.value.func.attr == "get" and unparse(d_.value.func.value) == k1.params[1] for d_ in ds_)
         ctx.ob(k1, r.stmt, fresh, "key dispatcher: the predecessor's key function is called afresh for every occurrence of a key" + ("" if fresh else f" — it returns `{unparse(v, 40)}`: a remembered result is shared between occurrences, and with it a single-use iterator of blocks"), sel="dispatch:key-fresh-call")
     k2 = repo.get(f"{A.PBW}.apply_blockwise_func")
     c2 = cfg_of(k2)
     ok2 = False
+    k2fl = flow_of(repo, k2)
     for r in c2.returns():
         for t, pol in facts_at(c2, r.id):
-            if isinstance(t, ast.Compare) and isinstance(t.ops[0], (ast.NotIn, ast.In)) and (isinstance(t.ops[0], ast.NotIn) == pol) and unparse(t.left) == f"{k2.params[0]}.output_name" and unparse(t.comparators[0]) == k2.params[1]:
+            if _absent(t, pol, k2, "output_name", k2fl, r.id):
                 ok2 = f"{k2.params[0]}.args" in unparse(r.stmt.value)
     ctx.ob(k2, None, ok2, "function dispatcher: arguments whose array has no predecessor function pass through (keyed by the same name the key dispatcher recorded)", sel="dispatch:func-passthrough")
     # lookup keys agree: key dispatcher indexes by arg.name, function dispatcher by arg.output_name
-    sub1 = [n for n in k1.own_nodes() if isinstance(n, ast.Subscript) and unparse(n.value) == k1.params[1]]
-    sub2 = [n for n in k2.own_nodes() if isinstance(n, ast.Subscript) and unparse(n.value) == k2.params[1]]
-    ok = bool(sub1) and bool(sub2) and unparse(sub1[0].slice) == f"{k1.params[0]}.name" and unparse(sub2[0].slice) == f"{k2.params[0]}.output_name"
+    def _lookup_keys(K):
+        """the expressions under which K's dictionary is indexed: D[<key>] and D.get(<key>)"""
+        out = [unparse(n.slice) for n in K.own_nodes() if isinstance(n, ast.Subscript) and unparse(n.value) == K.params[1]]
+        out += [unparse(n.args[0]) for n in K.own_nodes() if isinstance(n, ast.Call) and isinstance(n.func, ast.Attribute) and n.func.attr == "get" and unparse(n.func.value) == K.params[1] and n.args]
+        return out
+
+    sub1, sub2 = _lookup_keys(k1), _lookup_keys(k2)
+    ok = bool(sub1) and bool(sub2) and all(x == f"{k1.params[0]}.name" for x in sub1) and all(x == f"{k2.params[0]}.output_name" for x in sub2)
+    sub2 = [n for n in k2.own_nodes() if isinstance(n, (ast.Subscript, ast.Call)) and unparse(getattr(n, "value", getattr(getattr(n, "func", None), "value", None))) == k2.params[1]]
     ctx.ob(k2, sub2[0] if sub2 else None, ok, "predecessor dictionaries are indexed by the array name in both dispatchers", sel="dispatch:index-by-name")
     # generator-ness
     mf = repo.get(f"{A.PBW}.make_fused_function")
